@@ -361,7 +361,7 @@ def main(tier, seed):
             jobs.append({"id": f"{tag}-{len(jobs):05d}", "what": "read", "prog": p})
     for p in G.depth1(W, aW):
         add(p, "rd1")
-    for p in G.depth2(full=(tier != "quick")) + G.extension_programs():
+    for p in G.depth2(full=(tier != "quick")) + G.extension_programs() + G.reflected_programs():
         add(p, "rd2")
     gen = G.RandomExprs(seed + 1, W, aW)
     for i in range(nrand):
@@ -397,6 +397,10 @@ def main(tier, seed):
     hjobs = [{"id": f"hstate-{i}", "spec": sp} for i, sp in enumerate(hstate_proof.all_obligations(tier))]
     hres, hstats = run.run_jobs(hstate_proof.run_one, hjobs)
     rep.add(hres, hstats)
+    # "values of shape-castable objects round-trip through from_bits / const": ctx.set then ctx.get on the genuine Simulator for
+    # every member of signed / unsigned enumerations and for layout fields (shared with C15)
+    from checks import c15
+    rep.add([dict(x, id="c05-" + x["id"]) for x in c15.enum_job({}) if x["id"] == "testbench-roundtrip"], None)
     twin_checks(rep)
     rep.source_files = FILES
     rep.functions = ["amaranth.sim._pyeval.eval_value", "amaranth.sim._pyeval._eval_matches", "amaranth.sim._pyeval._eval_assign_inner",
